@@ -335,6 +335,22 @@ class RTFDocument(BaseModel):
                         f"`subline_by` column {column} not found in {section_label}"
                     )
 
+        # group_by works on the table columns: a column that subline_by (always)
+        # or page_by (when shown as spanning rows) takes out of the table cannot
+        # be grouped as well.
+        if body.group_by is not None:
+            removed = list(body.subline_by or [])
+            if body.page_by is not None and not (
+                body.new_page and body.pageby_row == "column"
+            ):
+                removed.extend(body.page_by)
+            for column in body.group_by:
+                if column in removed:
+                    raise ValueError(
+                        f"`group_by` column {column} is removed from the table "
+                        f"by `page_by`/`subline_by` in {section_label}"
+                    )
+
     def __init__(self, **data):
         super().__init__(**data)
 
